@@ -248,7 +248,7 @@ type Sub struct {
 }
 
 func Budget(thorough bool) e1.Budget {
-	b := e1.Budget{Bounds: []int{0, 1, 2, -1}, Required: 2, Prune: true, Elide: true, PerScen: 8 * time.Second}
+	b := e1.Budget{Bounds: []int{0, 1, 2, -1}, Required: 2, Prune: true, Elide: true, PerScen: 8 * time.Second, DevBounds: []int{1, 2}, DevRequired: 2, DevPerScen: 4 * time.Second}
 	if thorough {
 		b.PerScen = 3 * time.Minute
 		b.Required = 3
